@@ -12,7 +12,10 @@ ID = "C01"
 RULE = (
     "Recipes are accfg programs: 1-2 accelerators with 2-4 fields, full-field setup+launch+await units whose values come from a "
     "small pool of arguments/constants/induction variables/loop-carried values/pure arith results, nested scf.for (bounds from "
-    "arguments or constants, lb != 0 and step != 1 included), scf.if, external calls with and without the no-effects annotation; "
+    "arguments or constants, lb != 0 and step != 1 included, run-time lower bound with constant upper bound), scf.if, external calls with and "
+    "without the no-effects annotation, calls of functions defined in the module that configure an accelerator themselves, opaque ops marked "
+    "effects<full>, a pure op with two results of one type; shape macros for what the passes reason about (repeated units around call carriers, "
+    "if / else-if chains, loop towers, restore / leave / change inside loops, branches that agree on a field followed by change and restore); "
     "plus 3 input vectors choosing trip counts from {0,1,2,3,5} and branch outcomes. The real passes accfg-trace-states then "
     "accfg-dedup (hoist on/off) are applied; original and optimised modules are executed on the abstract CSR machine and compared "
     "event by event (launch/await/call order, call arguments, launch values, and at every launch every field the original had written). "
